@@ -335,13 +335,15 @@ def vecv(e, st, x):
 
 
 def dispatch(e, st, raw, a):
-    n = mirparse_strip(raw)
-    for pat, h in HANDLERS:
-        m = pat.search(n)
-        if m:
-            r = h(e, st, raw, n, a, m)
-            if r is not None: return r
-    raise Unsupported('no summary for callee ' + n)
+    n0 = mirparse_strip(raw)
+    # reduced-feature builds trim library paths differently (`f64::<impl f64>::floor` for `std::f64::<impl f64>::floor`)
+    for n in (n0, 'std::' + n0, 'core::' + n0):
+        for pat, h in HANDLERS:
+            m = pat.search(n)
+            if m:
+                r = h(e, st, raw, n, a, m)
+                if r is not None: return r
+    raise Unsupported('no summary for callee ' + n0)
 
 
 HANDLERS = []
